@@ -2935,6 +2935,9 @@ func (c *Conn) translateHandshakeCtxError(err error) error {
 	return fmt.Errorf("handshake failed: %w", err)
 }
 
+// closeNotifyTimeout bounds the write of the close_notify alert in Close.
+const closeNotifyTimeout = 5 * time.Second
+
 func (c *Conn) close(byUser bool) error {
 	c.closeLock.Lock()
 	cancelHandshaker := c.cancelHandshaker
@@ -2959,7 +2962,11 @@ func (c *Conn) close(byUser bool) error {
 	if c.isHandshakeCompletedSuccessfully() && byUser {
 		// Discard error from notify() to return non-error on user Close()
 		// even if the underlying connection is already closed.
-		_ = c.sendCloseNotify(context.Background())
+		// The write is given a limit: on a transport whose peer has stopped
+		// reading it would block, and Close with it, for ever.
+		ctx, cancel := context.WithTimeout(context.Background(), closeNotifyTimeout)
+		_ = c.sendCloseNotify(ctx)
+		cancel()
 	}
 
 	return c.nextConn.Close()
